@@ -5,6 +5,7 @@
    flags share a bit again. *)
 From Coq Require Import List NArith Bool.
 From RB Require Import Base.Result Gen.Flags Model.Buffer Model.Flags Model.Font Model.Skip Model.Gsub Proofs.FlagsP Proofs.GsubConcatP.
+From RB Require Proofs.BufferMaskP Proofs.BufferFlagFrameP.
 Import ListNotations.
 Local Open Scope N_scope.
 
@@ -128,6 +129,20 @@ Example C04_context1_calls_with_concat_on_fail :
 Proof. intros. cbn [subtable_apply]. rewrite H. cbn [bind]. rewrite H0. reflexivity. Qed.
 
 (* non-vacuity: two clusters, flags on one glyph of each, PRODUCE_UNSAFE_TO_CONCAT requested *)
+(* the flag calls of the buffer (unsafe_to_break, unsafe_to_concat and their out-buffer forms are all set_glyph_flags with a
+   flag value) write flag bits and nothing else: the sequence of glyph ids and, glyph by glyph, every mask bit outside the
+   three flag bits are as before, in every mode and for every range (clusters: C02_flags_keep_clusters) *)
+Theorem C04_flag_calls_keep_glyphs : forall b m s e interior from_out b',
+  set_glyph_flags b m s e interior from_out = Ok b' -> map gid (pre b' ++ rest b') = map gid (pre b ++ rest b).
+Proof. exact BufferFlagFrameP.set_glyph_flags_gids. Qed.
+Print Assumptions C04_flag_calls_keep_glyphs.
+
+Theorem C04_flag_calls_keep_feature_bits : forall b m s e interior from_out b', N.ldiff m GLYPH_FLAGS_DEFINED = 0%N ->
+  set_glyph_flags b m s e interior from_out = Ok b' ->
+  map BufferMaskP.fbits (pre b' ++ rest b') = map BufferMaskP.fbits (pre b ++ rest b).
+Proof. exact BufferFlagFrameP.set_glyph_flags_fbits. Qed.
+Print Assumptions C04_flag_calls_keep_feature_bits.
+
 Example C04_example :
   map (fun i => (cluster i, mask i))
       (propagate 64 32 [mkInfo 1 0 0 0 0; mkInfo 2 3 0 0 0; mkInfo 3 16 4 0 0; mkInfo 4 2 4 0 0])
